@@ -94,6 +94,12 @@ func (t *Term) String() string {
 		}
 	case "make":
 		s = "make(" + t.Name + ")"
+	case "lit":
+		parts := make([]string, len(t.Args))
+		for i, a := range t.Args {
+			parts[i] = a.String()
+		}
+		s = "[" + strings.Join(parts, ",") + "]"
 	default:
 		s = t.Op + ":" + t.Name
 	}
@@ -318,6 +324,41 @@ func (r *Resolver) compute(v ssa.Value, d int) *Term {
 	case *ssa.TypeAssert:
 		return &Term{Op: "conv", Name: "assert:" + types.TypeString(x.AssertedType, shortQual), Args: []*Term{r.of(x.X, d+1)}}
 	case *ssa.Slice:
+		// slice literal / variadic pack: [e0,e1,...]
+		if al, ok := x.X.(*ssa.Alloc); ok && x.Low == nil && (al.Comment == "slicelit" || al.Comment == "varargs") {
+			if arr, ok := al.Type().Underlying().(*types.Pointer).Elem().Underlying().(*types.Array); ok && arr.Len() <= 8 {
+				elems := make([]*Term, arr.Len())
+				okAll := true
+				for _, ref := range *al.Referrers() {
+					ia, isIA := ref.(*ssa.IndexAddr)
+					if !isIA {
+						continue
+					}
+					c, isC := ia.Index.(*ssa.Const)
+					if !isC || c.Value == nil {
+						okAll = false
+						continue
+					}
+					idx, _ := constant.Int64Val(c.Value)
+					for _, r2 := range *ia.Referrers() {
+						if st, ok := r2.(*ssa.Store); ok && st.Addr == ia && idx >= 0 && int(idx) < len(elems) {
+							if elems[idx] != nil {
+								okAll = false
+							}
+							elems[idx] = r.of(st.Val, d+1)
+						}
+					}
+				}
+				for _, e := range elems {
+					if e == nil {
+						okAll = false
+					}
+				}
+				if okAll {
+					return &Term{Op: "lit", Args: elems}
+				}
+			}
+		}
 		args := []*Term{stripAddr(r.of(x.X, d+1)), nil, nil}
 		if x.Low != nil {
 			args[1] = r.of(x.Low, d+1)
@@ -657,7 +698,11 @@ func (r *Resolver) allocField(al *ssa.Alloc, fa *ssa.FieldAddr, path []int, d in
 		t.Unstable = true
 		return t
 	}
-	t := mk(&Term{Op: "alloc", Name: allocName(al)})
+	base := r.allocContent(al, -1, d+1)
+	if base.Op == "zero" {
+		base = &Term{Op: "alloc", Name: allocName(al)}
+	}
+	t := mk(base)
 	t.Unstable = true
 	return t
 }
